@@ -164,7 +164,7 @@ package mux
 //
 //@ pred reqMethod(r *http.Request) = r.Header.first["Access-Control-Request-Method"]
 //@ pred reqOrigin(r *http.Request) = r.Header.first["Origin"]
-//@ pred isPreflight(r *http.Request) = r.Method == "OPTIONS" && reqMethod(r) != "" && r.URL.Path != "*"
+//@ pred isPreflight(r *http.Request) = r.Method == "OPTIONS" && reqMethod(r) != "" && r.URL.Path != "*" && r.URL.Path != ""
 //@ pred reqHdrs(r *http.Request) = pure0("strings.TrimSpace", r.Header.first["Access-Control-Request-Headers"])
 //@ pred hdrParts(r *http.Request) = pure0("strings.Split", reqHdrs(r), ",")
 //@ opaque pred allowedFoldV(any bool, hs string, allow []string) = any || hs == "" ||
@@ -199,6 +199,9 @@ package mux
 //@        (wh.first["Access-Control-Allow-Credentials"] == "true" && !c.anyOrigins && inList(c.Origins, reqOrigin(r)) &&
 //@         wh.first["Access-Control-Allow-Origin"] == reqOrigin(r))
 //@   ensures [C11] deny: c.deny ==> hdrUnchanged(wh, old(wh.first), old(wh.all))
+// the paths served by the root node ("*" and the empty path) carry the server-wide method summary: never a preflight
+//@   ensures [C11] root-paths-are-not-preflights: (r.URL.Path == "" || r.URL.Path == "*") ==>
+//@        wh.first["Access-Control-Allow-Methods"] == old(wh.first["Access-Control-Allow-Methods"])
 //@   ensures [C11] preflight-method: isPreflight(r) && !inList(nodeMethods(node), reqMethod(r)) ==> hdrUnchanged(wh, old(wh.first), old(wh.all))
 //@   ensures [C11] preflight-header: isPreflight(r) && !hdrsAllowedFold(c, r) ==>
 //@        wh.first["Access-Control-Allow-Origin"] == old(wh.first)["Access-Control-Allow-Origin"] &&
